@@ -6,7 +6,8 @@
 //   --part trees      (ii)  every document generated from the declared tree space (C16_gen.h):
 //                           serialise, parse, compare node by node
 //   --part mutations  (iii) every truncation and every single-byte substitution of every document of
-//                           the (ii) space (quick-tier option lists) up to B bytes
+//                           the (ii) space (quick-tier option lists) up to B bytes; for the documents up
+//                           to B2 bytes also every truncation with its last byte substituted
 //
 // Oracle for (i) and (iii): the call returns or throws std::runtime_error; any other exception,
 // a sanitizer report, a signal or a hang (alarm) is a violation.  Oracle for (ii): additionally the
@@ -15,9 +16,10 @@
 // Crash handling.  Every case runs inside a vr::run_sharded shard, so a sanitizer abort is attributed
 // to the case and the shard resumes after it.  Because a child that dies loses its in-memory report,
 // all counters, outcome digests and in-process violations are accumulated in a shared mapping.  Once
-// any shard has died, inputs of the shape classes that can end inside a quoted value (computed from
-// the bytes alone, C16_gen.h classify_input) are run in a forked sandbox of their own, so a defect
-// that fires on a few percent of all cases costs one fork per case instead of one shard restart.
+// a shard has died on an input that can end inside a quoted value (a shape class computed from the
+// bytes alone, C16_gen.h classify_input), the inputs of that class are run in a forked sandbox of
+// their own, so a defect that fires on a few percent of all cases costs one fork per case instead of
+// one shard restart; a shard that keeps dying on other inputs ends up sandboxing all of its cases.
 #include "common/vreport.h"
 
 #include "C16_gen.h"
@@ -67,7 +69,7 @@ static const int SANDBOX_ALL_AFTER = 8;  // restarts of one shard after which al
 struct Shm
 {
   std::atomic<long long> cnt[NCNT];
-  std::atomic<int> sandbox;  // some shard died: run the risky shape classes in a sandbox
+  std::atomic<int> sandbox;  // bit c set: a shard died on an input of shape class c, run that class in a sandbox
   std::atomic<int> capped;
   std::atomic<int> vlock;
   std::atomic<int> restarts[MAXSHARDS];  // how often run_sharded had to restart each shard
@@ -116,10 +118,8 @@ static void shm_violation(const std::string &sig, const std::string &replay, con
   int exp = 0;
   while (!G->vlock.compare_exchange_weak(exp, 1, std::memory_order_acquire)) {
     exp = 0;
-    if (++spins > 50000000) {  // a holder died: report through the normal channel instead
-      vr::violation(sig, replay, detail);
-      return;
-    }
+    if (++spins > 50000000)  // the holder died inside the few statements below: take the lock over
+      break;
   }
   int at = -1;
   for (int i = 0; i < G->nv; i++)
@@ -218,7 +218,11 @@ static void shard_begin(int shard, long long resume_after)
 {
   if (resume_after < 0)
     return;
-  G->sandbox.store(1);
+  // the slot still names the case this shard died on: remember its shape class
+  const char *died = vr::my_slot() ? vr::my_slot()->sig : "";
+  for (int ic = 1; ic <= 2; ic++)
+    if (strstr(died, c16::class_name((c16::InputClass)ic)))
+      G->sandbox.fetch_or(1 << ic);
   if (shard < MAXSHARDS && G->restarts[shard].fetch_add(1) + 1 >= SANDBOX_ALL_AFTER)
     g_sandbox_all = true;
 }
@@ -395,7 +399,7 @@ static void totality_case(long long index, const std::string &bytes, const std::
   cnt(C_MAXLEN, (long long)bytes.size());
   if (ic != c16::IC_OTHER)
     cnt(C_OPENCLASS);
-  bool sandbox = ((ic != c16::IC_OTHER && G->sandbox.load(std::memory_order_relaxed)) || g_sandbox_all) && !vr::replaying();
+  bool sandbox = (((G->sandbox.load(std::memory_order_relaxed) >> (int)ic) & 1) || g_sandbox_all) && !vr::replaying();
   if (sandbox) {
     in_sandbox("readXML|" + cls, replay, prov, [&]() {
       xml::XMLDoc doc;
@@ -622,7 +626,7 @@ struct BaseDoc
 };
 static const int DOCS_PER_SHARD = 32;
 
-static void mutations_shard(const std::vector<BaseDoc> &docs, int shard, long long resume_after)
+static void mutations_shard(const std::vector<BaseDoc> &docs, size_t B2, int shard, long long resume_after)
 {
   shard_begin(shard, resume_after);
   open_worker_file("m" + std::to_string(shard));
@@ -655,6 +659,19 @@ static void mutations_shard(const std::vector<BaseDoc> &docs, int shard, long lo
       }
       m[p] = d[p];
     }
+    // truncation whose last byte is replaced (a cut-off file with a damaged tail), short documents only
+    if (n <= B2)
+      for (size_t t = 1; t < n && !g_stop; t++) {
+        std::string m2 = d.substr(0, t);
+        for (size_t ci = 0; ci < SIGMA.size(); ci++) {
+          long long i = base + (long long)(n + n * SIGMA.size() + (t - 1) * SIGMA.size() + ci);
+          if (SIGMA[ci] == d[t - 1] || i <= resume_after)
+            continue;
+          m2[t - 1] = SIGMA[ci];
+          totality_case(i, m2, "bytes:" + c16::enc(m2) + "@TS" + std::to_string(t) + ":" + docs[j].choices,
+              "(truncation to " + std::to_string(t) + " bytes of document tree:" + docs[j].choices + " with the last byte replaced by '" + std::string(1, SIGMA[ci]) + "')");
+        }
+      }
   }
   close_worker_file();
 }
@@ -716,9 +733,27 @@ int main(int argc, char **argv)
     return 3;
   }
   if (vr::replaying()) {
-    alarm(10);
-    int rc = replay_one(vr::S().replay);
-    return rc;
+    // the case runs in a child so that the scratch directory is removed even when the sanitizer
+    // aborts the process; the child's report goes to the same stdout/stderr
+    fflush(stdout);
+    pid_t pid = fork();
+    if (pid == 0) {
+      alarm(10);
+      int rc = replay_one(vr::S().replay);
+      fflush(stdout);
+      _exit(rc);
+    }
+    int status = 0;
+    while (waitpid(pid, &status, 0) < 0 && errno == EINTR) {
+    }
+    remove_dir();
+    if (WIFSIGNALED(status)) {
+      printf("replayed case died: signal %d (%s)\n", WTERMSIG(status), strsignal(WTERMSIG(status)));
+      return 1;
+    }
+    if (WEXITSTATUS(status) == 86)
+      printf("replayed case died: sanitizer report above; want: a returned document or std::runtime_error\n");
+    return WEXITSTATUS(status);
   }
   // the parser prints a warning on std::cout for documents that end inside an open element
   std::cout.rdbuf(nullptr);
@@ -753,9 +788,11 @@ int main(int argc, char **argv)
     }
     vr::stat("base_documents", (long long)docs.size());
     int nshards = (int)((docs.size() + DOCS_PER_SHARD - 1) / DOCS_PER_SHARD);
-    vr::run_sharded(nshards, [&](int shard, long long resume) { mutations_shard(docs, shard, resume); });
+    const size_t B2 = th ? 36 : 24;
+    vr::run_sharded(nshards, [&](int shard, long long resume) { mutations_shard(docs, B2, shard, resume); });
     vr::sample("(iii) " + std::to_string(docs.size()) + " documents of the tree space with <= " + std::to_string(B) +
-        " bytes, each: every truncation + every byte replaced by every other symbol of " + SIGMA + "; e.g. base '" + (docs.empty() ? "" : docs[docs.size() / 2].bytes) + "'");
+        " bytes, each: every truncation + every byte replaced by every other symbol of " + SIGMA + " (+ for documents <= " + std::to_string(B2) +
+        " bytes: every truncation with its last byte replaced); e.g. base '" + (docs.empty() ? "" : docs[docs.size() / 2].bytes) + "'");
   } else {
     printf("unknown --part %s\n", part.c_str());
     return 3;
@@ -781,7 +818,7 @@ int main(int argc, char **argv)
       vr::S().viol_counts[G->v[i].sig] += G->v[i].count - 1;
   }
   if (G->sandbox.load())
-    vr::note("a shard died at least once; from then on inputs with an unclosed-quoted-value shape ran in a per-case forked sandbox (" +
+    vr::note("a shard died on an input with an unclosed-quoted-value shape; from then on the inputs of that shape class ran in a per-case forked sandbox (" +
         std::to_string(G->cnt[C_SANDBOXED].load()) + " cases)");
   if (G->capped.load())
     vr::capped("part " + part + ": deadline passed, enumeration stopped early after " + std::to_string(G->cnt[C_STATES].load()) + " cases");
